@@ -151,11 +151,38 @@ def exec_grammar(engine_extras: bool = False, opt_extras: bool = False) -> Gramm
             A("scalar_sum_corr", 1, "SELECT a, b FROM x WHERE b = (SELECT SUM(c) FROM y WHERE y.b = x.b)"),
             A("group_having_expr", 1, "SELECT a, SUM(b) AS s FROM x GROUP BY a HAVING SUM(b) > 1 OR a IS NULL"),
             A("distinct_join", 1, "SELECT DISTINCT x.a FROM x {jk} y ON x.b = y.b"),
+            # predicate kind x subquery body: every uncorrelated body under every subquery predicate
+            A("sub.in", 1, "SELECT a, b FROM x WHERE b IN ({sub1})"),
+            A("sub.not_in", 1, "SELECT a, b FROM x WHERE b NOT IN ({sub1})"),
+            A("sub.any", 1, "SELECT a, b FROM x WHERE b = ANY ({sub1})"),
+            A("sub.all", 1, "SELECT a, b FROM x WHERE b >= ALL ({sub1})"),
+            A("sub.in_proj", 1, "SELECT a, b IN ({sub1}) AS m FROM x"),
+            A("sub.in_or", 1, "SELECT a, b FROM x WHERE b IN ({sub1}) OR a = 1"),
+            A("sub.exists", 1, "SELECT a, b FROM x WHERE EXISTS ({subc})"),
+            A("sub.not_exists", 1, "SELECT a, b FROM x WHERE NOT EXISTS ({subc})"),
+            A("sub.in_corr", 1, "SELECT a, b FROM x WHERE a IN ({subc})"),
+            A("sub.scalar_agg", 1, "SELECT a, ({subagg}) AS m FROM x"),
+            A("sub.scalar_agg_where", 1, "SELECT a, b FROM x WHERE b > ({subagg})"),
+            A("sub.from", 1, "SELECT s.b FROM ({sub1}) AS s(b) WHERE s.b = 1"),
         ]
         rules.update(expr_rules_alias("sc_s", "s.a", "s.b") if False else {})
     rules.update({"q": q, "agg": agg, "on": on, "jk": jk, "order": order})
     if opt_extras:
         rules.update({
+            "sub1": [A("s1.plain", 0, "SELECT b FROM y"), A("s1.where", 1, "SELECT b FROM y WHERE c = 1"), A("s1.group1", 1, "SELECT b FROM y GROUP BY b"),
+                     A("s1.group2", 1, "SELECT b FROM y GROUP BY b, c"), A("s1.group_agg", 1, "SELECT MAX(b) FROM y GROUP BY c"),
+                     A("s1.distinct", 1, "SELECT DISTINCT b FROM y"), A("s1.having", 1, "SELECT b FROM y GROUP BY b HAVING COUNT(*) > 1"),
+                     A("s1.limit", 1, "SELECT b FROM y ORDER BY b LIMIT 1"), A("s1.union", 1, "SELECT b FROM y UNION ALL SELECT c FROM y"),
+                     A("s1.join", 1, "SELECT y.b FROM y JOIN x AS x2 ON y.c = x2.a"), A("s1.expr", 1, "SELECT b + 1 FROM y"),
+                     A("s1.coalesce", 1, "SELECT COALESCE(b, 0) FROM y"), A("s1.agg", 1, "SELECT MAX(b) FROM y"), A("s1.window", 1, "SELECT MAX(b) OVER () FROM y")],
+            "subc": [A("sc.eq", 0, "SELECT y.c FROM y WHERE y.b = x.b"), A("sc.eq_const", 1, "SELECT y.c FROM y WHERE y.b = x.b AND y.c = 1"),
+                     A("sc.group", 1, "SELECT y.c FROM y WHERE y.b = x.b GROUP BY y.c"), A("sc.gt", 1, "SELECT y.c FROM y WHERE y.b > x.b"),
+                     A("sc.or", 1, "SELECT y.c FROM y WHERE y.b = x.b OR y.c = x.a"), A("sc.limit", 1, "SELECT y.c FROM y WHERE y.b = x.b ORDER BY y.c LIMIT 1"),
+                     A("sc.two", 1, "SELECT y.c FROM y WHERE y.b = x.b AND y.c = x.a"), A("sc.distinct", 1, "SELECT DISTINCT y.c FROM y WHERE y.b = x.b"),
+                     A("sc.expr", 1, "SELECT y.c + 1 FROM y WHERE y.b = x.b + 1")],
+            "subagg": [A("sa.max", 0, "SELECT MAX(c) FROM y"), A("sa.count_corr", 1, "SELECT COUNT(*) FROM y WHERE y.b = x.b"), A("sa.sum_corr", 1, "SELECT SUM(c) FROM y WHERE y.b = x.b"),
+                       A("sa.max_corr_two", 1, "SELECT MAX(c) FROM y WHERE y.b = x.b AND y.c > x.a"), A("sa.count_distinct", 1, "SELECT COUNT(DISTINCT c) FROM y WHERE y.b = x.b"),
+                       A("sa.min_where", 1, "SELECT MIN(c) FROM y WHERE c > 1"), A("sa.count_group", 1, "SELECT COUNT(*) FROM y WHERE y.b = x.b GROUP BY y.b")],
             "sc_s": [A("d", 0, "s.a = 1"), A("s.b_null", 1, "s.a IS NULL"), A("s.gt", 1, "s.a > 1"), A("s.or", 1, "s.a = 1 OR s.a IS NULL"),
                      A("s.in", 1, "s.a IN (1, NULL)"), A("s.not", 1, "NOT s.a = 1"), A("s.neq", 1, "s.a <> 2")],
             "jc_ys": [A("d", 0, "y.c = 1"), A("n_null", 1, "s.n IS NULL"), A("n_gt", 1, "s.n > 1"), A("coalesce", 1, "COALESCE(s.n, 0) = 0")],
